@@ -1,6 +1,6 @@
 (* T02 / corners where the implementation (model M1, tied to the Go code by the correspondence runs) differs from the
    reference filesystem of T02Ns.v, each as a compiled example; the theorems of T02Spec.v carry the hypothesis that
-   excludes the corner.  ((1) is a former corner that the repaired flush header removed, kept as a positive example.)  Each example runs the call on a state reached by filesystem calls from Initialize "/",
+   excludes the corner.  ((1) and most of (2) are former corners that the repaired flush header removed, kept as positive examples.)  Each example runs the call on a state reached by filesystem calls from Initialize "/",
    and compares the live entries after the call with the reference result ([ns_eqb], [outc_eqb]). *)
 From Coq Require Import String List NArith ZArith Bool.
 Import ListNotations.
@@ -35,36 +35,41 @@ Proof. vm_compute. reflexivity. Qed.
 Example create_with_content_agrees_for_root_identity : agrees rcfg hroot (CCreateFile (s "/f") [(1, 0, 10)]) 5 = true.
 Proof. vm_compute. reflexivity. Qed.
 
-(* (2) CreateFile on an EXISTING regular file: the reference truncates, writes, keeps owner / group / access time and
-       stamps the modification time; the implementation does the same except that it keeps the old modification time
-       (the handle flushes the mtime it read at open).  Here the file was created by 7:8, then given to 3:4 and the
-       times 8 / 9: after CreateFile at time 50 the entry has the new size, the owner 3:4, access time 8 - and still
-       modification time 9, where the reference has 50.  ([T02_create_file_existing], [.._reference] in T02Spec.v.) *)
+(* (2) CreateFile on an EXISTING regular file.  With content (or on a non-empty file) this is NOT a corner any more (it
+       was: create_existing_keeps_mtime, with the flush writing the modification time the handle read at open): the
+       reference truncates, writes, keeps owner / group / access time and stamps the modification time, and so does the
+       implementation (the flush stamps the clock, Fs.stamp_mtime).  Here the file was created by 7:8, then given to
+       3:4 and the times 8 / 9: after CreateFile at time 50 the entry has the new size, the owner 3:4, access time 8
+       and modification time 50.  ([T02_create_file], [T02_create_file_existing] in T02Spec.v.) *)
 Definition hfile : list (call * env) :=
   hroot ++ [(CCreateFile (s "/f") [(1, 0, 10)], e0 2); (CChown (s "/f") 3 4, e0 3); (CChtimes (s "/f") 8%Z 9%Z, e0 4)].
 Definition cols (v : node) := (n_size v, n_mtime v, n_atime v, n_ctime v, n_uid v, n_gid v, n_uname v, n_gname v).
-Example create_existing_keeps_mtime :
-  agrees tcfg hfile (CCreateFile (s "/f") [(2, 0, 20)]) 50 = false /\
+Example create_existing_stamps_mtime :
+  agrees tcfg hfile (CCreateFile (s "/f") [(2, 0, 20)]) 50 = true /\
   option_map cols (result_of tcfg hfile (CCreateFile (s "/f") [(2, 0, 20)]) 50 (s "/f"))
-    = Some (20, 9%Z, 8%Z, 0%Z, 3, 4, s "u", s "g") /\
+    = Some (20, 50%Z, 8%Z, 0%Z, 3, 4, s "u", s "g") /\
   option_map cols (lookup (fst (spec_create_file tcfg (abs (final tcfg init_sys hfile)) (s "/f") 20 50 (0, 0))) (s "/f"))
     = Some (20, 50%Z, 8%Z, 0%Z, 3, 4, s "u", s "g") /\
   (* the same for the identity 0/0/""/"" *)
-  agrees rcfg hfile (CCreateFile (s "/f") [(2, 0, 20)]) 50 = false /\
+  agrees rcfg hfile (CCreateFile (s "/f") [(2, 0, 20)]) 50 = true /\
   option_map cols (result_of rcfg hfile (CCreateFile (s "/f") [(2, 0, 20)]) 50 (s "/f"))
-    = Some (20, 9%Z, 8%Z, 0%Z, 3, 4, [], []).
+    = Some (20, 50%Z, 8%Z, 0%Z, 3, 4, [], []).
 Proof. vm_compute. repeat split; reflexivity. Qed.
-(* the modification time is the ONLY difference: with the old modification time put back, the reference's result is
-   the implementation's *)
-Example create_existing_differs_in_mtime_only :
-  let st := final tcfg init_sys hfile in
-  let st' := fst (step tcfg (with_env st (e0 50)) (CCreateFile (s "/f") [(2, 0, 20)])) in
-  let cid := match lookup (abs st') (s "/f") with Some v => n_cid v | None => (0, 0) end in
-  ns_eqb (abs st') (ns_upd (fst (spec_create_file tcfg (abs st) (s "/f") 20 50 cid)) (s "/f") (with_times 8 9)) = true.
-Proof. vm_compute. reflexivity. Qed.
-(* an existing EMPTY file and nothing to write: the implementation does nothing at all (no record is written),
-   the reference stamps the modification time *)
+(* truncating a non-empty file without writing (d = []) flushes the empty buffer O_TRUNC made: size 0, stamped, agrees *)
+Example create_existing_truncate_only_agrees :
+  agrees tcfg hfile (CCreateFile (s "/f") []) 50 = true /\
+  option_map cols (result_of tcfg hfile (CCreateFile (s "/f") []) 50 (s "/f"))
+    = Some (0, 50%Z, 8%Z, 0%Z, 3, 4, s "u", s "g").
+Proof. vm_compute. repeat split; reflexivity. Qed.
+(* writing content to an existing EMPTY file agrees as well *)
 Definition hempty : list (call * env) := hroot ++ [(CCreateFile (s "/g") [], e0 2)].
+Example create_existing_empty_with_content_agrees :
+  agrees tcfg hempty (CCreateFile (s "/g") [(2, 0, 20)]) 50 = true /\
+  option_map (fun v => (n_size v, n_mtime v)) (result_of tcfg hempty (CCreateFile (s "/g") [(2, 0, 20)]) 50 (s "/g")) = Some (20, 50%Z).
+Proof. vm_compute. repeat split; reflexivity. Qed.
+(* THE REMAINING CORNER: an existing EMPTY file and nothing to write: the implementation does nothing at all (the handle
+   has no buffer, Close flushes nothing, no record is written), the reference stamps the modification time.  Excluded
+   by [create_pre]; [T02_create_file_existing_empty] in T02Spec.v. *)
 Example create_existing_empty_is_noop :
   agrees tcfg hempty (CCreateFile (s "/g") []) 50 = false /\
   option_map n_mtime (result_of tcfg hempty (CCreateFile (s "/g") []) 50 (s "/g")) = Some 2%Z /\
@@ -72,6 +77,13 @@ Example create_existing_empty_is_noop :
   agrees rcfg hempty (CCreateFile (s "/g") []) 50 = false /\
   option_map n_mtime (result_of rcfg hempty (CCreateFile (s "/g") []) 50 (s "/g")) = Some 2%Z.
 Proof. vm_compute. repeat split; reflexivity. Qed.
+(* the modification time is the ONLY difference there: with it put back, the reference's result is the implementation's *)
+Example create_existing_empty_differs_in_mtime_only :
+  let st := final tcfg init_sys hempty in
+  let st' := fst (step tcfg (with_env st (e0 50)) (CCreateFile (s "/g") [])) in
+  let cid := match lookup (abs st') (s "/g") with Some v => n_cid v | None => (0, 0) end in
+  ns_eqb (abs st') (ns_upd (fst (spec_create_file tcfg (abs st) (s "/g") 0 50 cid)) (s "/g") (with_times 0 2)) = true.
+Proof. vm_compute. reflexivity. Qed.
 
 (* (3) the tree shape [closed] is a hypothesis, not a consequence of the C01 invariant: a state that is not a tree can be
        produced with the operations-level Archive (not a filesystem call), here an entry "/x/y/z" whose parent
